@@ -18,8 +18,11 @@ type runner struct {
 	L       *lua.LState
 	path    string
 	handles []lua.LValue
+	iters   map[int][]lua.LValue // handle -> the iterator of its last lines op and its arguments
 	ioOpen  lua.LValue
 	ioLines lua.LValue
+	ioInput lua.LValue
+	ioClose lua.LValue
 }
 
 func (r *runner) call(fn lua.LValue, args ...lua.LValue) (vals []lua.LValue, err error) {
@@ -188,7 +191,16 @@ func (r *runner) step(o Op) Res {
 		vals, err := r.call(fn, args...)
 		return shape("read", vals, err)
 	case "lines":
-		vals, err := r.call(fn, ud)
+		var vals []lua.LValue
+		var err error
+		if o.Via == "io" {
+			if _, err = r.call(r.ioInput, ud); err != nil {
+				return Res{T: "weird", Note: "io.input(f): " + err.Error()}
+			}
+			vals, err = r.call(r.ioLines) // the iterator and the default input as its state
+		} else {
+			vals, err = r.call(fn, ud)
+		}
 		if err != nil {
 			return Res{T: "raise"}
 		}
@@ -198,7 +210,15 @@ func (r *runner) step(o Op) Res {
 		if _, ok := vals[0].(*lua.LFunction); !ok {
 			return weird(vals)
 		}
-		return r.iterate(vals[0], nil, o.K)
+		// the iterator outlives this step: "next" steps call it again, also after a close
+		r.iters[o.H] = vals
+		return r.iterate(vals[0], vals[1:], o.K)
+	case "next":
+		it, ok := r.iters[o.H]
+		if !ok {
+			return Res{T: "weird", Note: "no iterator was obtained on this handle"}
+		}
+		return r.iterate(it[0], it[1:], o.K)
 	case "write":
 		args := []lua.LValue{ud}
 		for _, s := range o.Strs {
@@ -214,6 +234,10 @@ func (r *runner) step(o Op) Res {
 		vals, err := r.call(fn, args...)
 		return shape("seek", vals, err)
 	case "flush", "close":
+		if o.T == "close" && o.Via == "io" {
+			vals, err := r.call(r.ioClose, ud)
+			return shape(o.T, vals, err)
+		}
 		vals, err := r.call(fn, ud)
 		return shape(o.T, vals, err)
 	case "setvbuf":
@@ -242,7 +266,9 @@ func execute(in Input) []Res {
 	L := lua.NewState()
 	defer L.Close()
 	io := L.GetGlobal("io")
-	r := &runner{L: L, path: path, ioOpen: L.GetField(io, "open"), ioLines: L.GetField(io, "lines")}
+	r := &runner{L: L, path: path, iters: map[int][]lua.LValue{},
+		ioOpen: L.GetField(io, "open"), ioLines: L.GetField(io, "lines"),
+		ioInput: L.GetField(io, "input"), ioClose: L.GetField(io, "close")}
 	obs := make([]Res, 0, len(in.Ops))
 	for _, o := range in.Ops {
 		obs = append(obs, r.step(o))
@@ -285,7 +311,7 @@ func matchKF(in Input) []string {
 	multiNum := false
 	for _, o := range in.Ops {
 		switch o.T {
-		case "lines", "iolines":
+		case "lines", "next", "iolines":
 			lineRead = true
 		case "read":
 			for i, f := range o.Fmts {
